@@ -35,7 +35,7 @@ func init() { core.Register(area{}) }
 
 func (area) Name() string { return "codec" }
 
-const kinds = 11
+const kinds = 12
 
 func (area) Run(c *core.Ctx) error {
 	for i := 0; i < c.N; i++ {
@@ -70,6 +70,8 @@ func (area) Run(c *core.Ctx) error {
 			streamCase(c, r)
 		case 10:
 			poolAliasCase(c, r)
+		case 11:
+			callerBufferCase(c, r)
 		}
 	}
 	return nil
